@@ -16,11 +16,22 @@ use rand::Rng as _;
 #[derive(Default)]
 pub struct St {
     pub op: Option<MultiOp>,
+    /// the program that built `op`: rebuilding it gives the same queue with the same physical layout
+    /// (`clone()` of a VecDeque compacts its ring buffer)
+    pub op_prog: Option<ops::Prog>,
     pub q: Option<QReg>,
     pub q2: Option<QReg>,
     pub c: Option<CReg>,
     pub v: Option<VReg>,
     pub i: crate::interp::ISt,
+}
+
+/// the current operator, built again from its program (same element order, same ring-buffer layout)
+fn fresh_op(st: &St) -> MultiOp {
+    match st.op_prog.as_ref().map(ops::build) {
+        Some(Built::Ok(o)) => o,
+        _ => st.op.as_ref().expect("no op").clone(),
+    }
 }
 
 fn qobs(q: &QReg) -> String {
@@ -81,6 +92,7 @@ fn exec_inner(st: &mut St, cmd: &str) -> String {
             let prog = ops::parse_prog(&toks[1..].join(" ")).expect("bad op program");
             let b = ops::build(&prog);
             let obs = ops::built_obs(&b);
+            st.op_prog = Some(prog.clone());
             st.op = match b {
                 Built::Ok(o) => Some(o),
                 _ => None,
@@ -400,13 +412,17 @@ fn exec_inner(st: &mut St, cmd: &str) -> String {
             st.c = Some(c);
             o
         }
-        "cset" | "cxor" | "creset" | "csetnum" | "ctensor" => {
+        "cset" | "cxor" | "creset" | "csetnum" | "ctensor" | "cmulassign" => {
             let c = st.c.as_mut().expect("no creg");
             match toks[0] {
                 "cset" => c.set(toks[1] == "1", toks[2].parse().unwrap()),
                 "cxor" => c.xor(toks[1] == "1", toks[2].parse().unwrap()),
                 "creset" => c.verif_reset(toks[1].parse().unwrap()),
                 "csetnum" => c.set_num(toks[1].parse().unwrap()),
+                "cmulassign" => {
+                    let other = CReg::with_state(toks[1].parse().unwrap(), toks[2].parse().unwrap());
+                    *c *= other;
+                }
                 _ => {
                     let other = CReg::with_state(toks[1].parse().unwrap(), toks[2].parse().unwrap());
                     let me = std::mem::take(c);
@@ -462,7 +478,7 @@ fn exec_inner(st: &mut St, cmd: &str) -> String {
             let m: usize = toks[1].parse().unwrap();
             let e = st.op.as_ref().expect("no op").clone();
             let q = st.q.as_ref().expect("no qreg");
-            match e.clone().c(m) {
+            match fresh_op(st).c(m) {
                 None => "refused".to_string(),
                 Some(ec) => {
                     let mut q1 = q.clone();
@@ -483,7 +499,7 @@ fn exec_inner(st: &mut St, cmd: &str) -> String {
         "metadgr" => {
             // C03: E then E.dgr(), E.dgr() then E; names of the dagger
             let e = st.op.as_ref().expect("no op").clone();
-            let d = e.clone().dgr();
+            let d = fresh_op(st).dgr();
             let q = st.q.as_ref().expect("no qreg");
             let mut q1 = q.clone();
             q1.apply(&e);
@@ -505,7 +521,7 @@ fn exec_inner(st: &mut St, cmd: &str) -> String {
         "metadgrmat" => {
             let size: usize = toks[1].parse().unwrap();
             let e = st.op.as_ref().expect("no op").clone();
-            let d = e.clone().dgr();
+            let d = fresh_op(st).dgr();
             let m1: Vec<C> = e.matrix(size).into_iter().flatten().collect();
             let m2: Vec<C> = d.matrix(size).into_iter().flatten().collect();
             format!("{} {}", cvec(&m1), cvec(&m2))
@@ -1010,8 +1026,9 @@ fn gen_reg_case(r: &mut Rng, max_n: usize, max_thr: usize, stats: &mut HashMap<S
                 let a = r.range(0, 6);
                 let b = r.range(0, 6);
                 cmds.push(format!("creg {a} {}", r.below(1usize << (a + 2))));
-                cmds.push(format!("ctensor {b} {}", r.below(1usize << (b + 1))));
-                *stats.entry("ctensor".into()).or_default() += 1;
+                let form = if r.chance(1, 2) { "ctensor" } else { "cmulassign" };
+                cmds.push(format!("{form} {b} {}", r.below(1usize << (b + 1))));
+                *stats.entry(form.into()).or_default() += 1;
             }
         }
     }
@@ -1034,7 +1051,12 @@ fn unitary_prog(r: &mut Rng, n: usize) -> ops::Prog {
 fn gen_hist_case(r: &mut Rng, max_n: usize, max_thr: usize, steps_max: usize, stats: &mut HashMap<String, usize>) -> (String, Vec<String>) {
     let mut n = r.range(0, max_n.min(5));
     let thr = threads_choice(r, max_thr);
-    let mut cmds = vec![format!("qstate {n} {} {thr}", r.below(1usize << n)), "valid".into()];
+    let mut cmds = if r.chance(1, 2) {
+        vec![format!("qstate {n} {} {thr}", r.below(1usize << n)), "valid".into()]
+    } else {
+        // a dense random state: every basis state, the highest ones included, carries amplitude
+        vec![format!("qreg {n} {thr}"), format!("setpsi {}", cvec(&rand_psi(r, n, false))), "valid".into()]
+    };
     let steps = r.range(2, steps_max);
     for _ in 0..steps {
         let k = r.below(10);
@@ -1108,7 +1130,9 @@ fn gen_meas_case(r: &mut Rng, max_n: usize, max_thr: usize, stats: &mut HashMap<
     };
     *stats.entry(format!("maskbits.{}", (m & all).count_ones())).or_default() += 1;
     *stats.entry(if m & !all != 0 { "beyond".into() } else { "inside".to_string() }).or_default() += 1;
+    cmds.push("probs".into());
     cmds.push(format!("measure {m} {}", r.next() >> 1));
+    cmds.push("probs".into());
     cmds.push(format!("measure {m} {}", r.next() >> 1));
     // a sub-mask and a disjoint mask afterwards
     let sub = r.submask(m & all);
@@ -1243,7 +1267,8 @@ fn gen_bits_case(r: &mut Rng, stats: &mut HashMap<String, usize>) -> (String, Ve
     }
     if cn <= 40 {
         let b = r.range(0, 20);
-        cmds.push(format!("ctensor {b} {}", r.below(1usize << (b + 1))));
+        let form = if r.chance(1, 2) { "ctensor" } else { "cmulassign" };
+        cmds.push(format!("{form} {b} {}", r.below(1usize << (b + 1))));
         cmds.push("cdebug".into());
     }
     if r.chance(1, 3) {
@@ -1407,11 +1432,21 @@ fn gen_c18_case(r: &mut Rng, stats: &mut HashMap<String, usize>) -> (String, Vec
     let (bad, variant) = qgen::plant(r, &p.env);
     let npre = r.below(4);
     let mut failing: Vec<String> = Vec::new();
-    if r.chance(1, 2) {
+    let q0 = p.env.qubits()[0].clone();
+    let fresh_reg = r.chance(1, 2);
+    let fresh_gate = r.chance(1, 2);
+    if fresh_reg {
         failing.push("qreg fresh[1];".into());
+        if r.chance(1, 2) {
+            failing.push("h fresh[0];".into());
+        }
     }
-    if r.chance(1, 2) {
+    if fresh_gate {
         failing.push("gate freshg a { h a; }".into());
+        // the new gate is also applied before the error (its definition has been looked up)
+        if r.chance(2, 3) {
+            failing.push(format!("freshg {q0};"));
+        }
     }
     for s in p.stmts.iter().chain(p2.stmts.iter()).take(npre) {
         if p.stmts.contains(s) {
@@ -1428,6 +1463,17 @@ fn gen_c18_case(r: &mut Rng, stats: &mut HashMap<String, usize>) -> (String, Vec
     cmds.push(format!("iadd {}", hex(&join_src(&failing))));
     cmds.push(format!("iexpect {variant}"));
     cmds.push("iunchanged".into());
+    // nothing of the rejected chunk is visible afterwards: its gate and its register are unknown
+    if fresh_gate {
+        cmds.push(format!("iadd {}", hex(&format!("freshg {q0};"))));
+        cmds.push("iexpect UnknownGate".into());
+        *stats.entry("probe.gate".into()).or_default() += 1;
+    }
+    if fresh_reg {
+        cmds.push(format!("iadd {}", hex("h fresh[0];")));
+        cmds.push("iexpect NoQReg".into());
+        *stats.entry("probe.reg".into()).or_default() += 1;
+    }
     if !cont.is_empty() {
         cmds.push(format!("iadd {}", hex(&join_src(&cont))));
     }
